@@ -14,7 +14,18 @@ def findings():
         rows.append("| %s | `%s` | %s | %s | %s |" % (k["property"], k["signature"], k["status"], k.get("commit", ""), what))
     return "\n".join(rows)
 def seeds():
-    rows = ["| seed | property | change (independent sub-agent) | needs | confirmed by us | our quick check |", "|---|---|---|---|---|---|"]
+    metas = []
+    for d in sorted(glob.glob(os.path.join(V, "seeded", "*"))):
+        mp = os.path.join(d, "meta.json")
+        if os.path.exists(mp):
+            metas.append(json.load(open(mp)))
+    n = len(metas)
+    conf = sum(1 for m in metas if (m.get("confirmed_by_us") or {}).get("all_steps_as_expected"))
+    det = sum(1 for m in metas if m.get("detected"))
+    rows = ["%d seeds in `seeded/`; %d confirmed by us; %d end with exit 1 (VIOLATION) of a quick check on the final machinery. "
+            "Which of them were missed on their first run, why, and what was added is in `seeded/HISTORY.md`. Patches are relative to "
+            "the /repo HEAD at their intake time (later `fix:` commits touch some of the same lines)." % (n, conf, det), "",
+            "| seed | property | change (independent sub-agent) | needs | confirmed by us | our quick check |", "|---|---|---|---|---|---|"]
     for d in sorted(glob.glob(os.path.join(V, "seeded", "*"))):
         mp = os.path.join(d, "meta.json")
         if not os.path.exists(mp): continue
